@@ -309,7 +309,7 @@ Definition convert_to_bool (key : str) (v : pv) : res pv :=
 Definition convert_to_int (key : str) (v : pv) : res pv :=
   let of_elem (e : pv) : res pv :=
     match e with
-    | PStr t => match py_int t with Some z => Ok (PInt z) | None => Err (s "ValueError") key false end
+    | PStr t => match py_int t with Some z => Ok (PInt z) | None => Err (s "ValueError") key true end
     | PInt z => Ok (PInt z)
     | PBool b => Ok (PInt (if b then 1 else 0)%Z)
     | _ => te key
@@ -573,23 +573,43 @@ Fixpoint convert_meta (m : list (str * list str)) : res (list (str * pv) * list 
 Definition include_like (kv : str * pv) : bool :=
   match snd kv with PStr x => prefix (s "{!") x | _ => false end.
 
-(* load_markdown_settings: settings and the keys warned about *)
-Definition run_markdown (lines : list str) : res (settings * list str) :=
+(* keys that are not options are reported and dropped (fpm.toml and --config, as for the project
+   file): the remaining pairs and the keys warned about *)
+Fixpoint drop_unknown (kv : list (str * pv)) : list (str * pv) * list str :=
+  match kv with
+  | [] => ([], [])
+  | (k, v) :: kv' =>
+    let (known, warned) := drop_unknown kv' in
+    match field_ty k with
+    | Some _ => ((k, v) :: known, warned)
+    | None => (known, k :: warned)
+    end
+  end.
+
+(* dict.update: the --config options override those of the file *)
+Definition kw_update (kw extra : list (str * pv)) : list (str * pv) :=
+  fold_left (fun d kv => aset (fst kv) (snd kv) d) extra kw.
+
+(* load_markdown_settings: settings and the keys warned about; [extra] are the --config options *)
+Definition run_markdown (lines : list str) (extra : list (str * pv)) : res (settings * list str) :=
   do r <- convert_meta (meta_preprocessor lines);
   if existsb include_like (fst r) then Unmodelled (s "markdown include in metadata") else
-  do st <- construct (fst r);
+  do st <- construct (kw_update (fst r) extra);
   Ok (st, snd r).
 
 (* load_toml_settings on the parsed [extra.ford] table *)
-Definition run_toml (kv : list (str * pv)) : res (settings * list str) :=
-  do st <- construct kv; Ok (st, []).
+Definition run_toml (kv extra : list (str * pv)) : res (settings * list str) :=
+  let (known, warned) := drop_unknown kv in
+  do st <- construct (kw_update known extra); Ok (st, warned).
 
 (* load_settings: fpm.toml wins when it has an [extra.ford] table *)
-Definition load_settings (lines : list str) (toml : option (list (str * pv))) : res (settings * list str) :=
-  match toml with Some kv => run_toml kv | None => run_markdown lines end.
+Definition load_settings (lines : list str) (toml : option (list (str * pv))) (extra : list (str * pv))
+  : res (settings * list str) :=
+  match toml with Some kv => run_toml kv extra | None => run_markdown lines extra end.
 
 (* ------------------------------------------------------------------ parse_arguments *)
-(* --config: setattr of the raw TOML values *)
+(* --config handed to parse_arguments directly (not what ford.initialize does): setattr of the raw
+   TOML values *)
 Definition apply_config (st : settings) (cfg : list (str * pv)) : settings := overlay st cfg.
 
 (* convert_types_from_commandarguments over the destinations that are not None *)
@@ -703,13 +723,15 @@ Record input := mkinput {
 
 Definition project_dir (i : input) : str := norm_path (i_cwd i) (i_dir i).
 
+(* ford.initialize: the --config options (unknown keys reported and dropped) join the options of
+   the settings file before the settings object is built; then the command line *)
 Definition effective (i : input) : res (settings * list str) :=
-  do r <- load_settings (i_lines i) (i_toml i);
-  let st := match i_cfg i with Some c => apply_config (fst r) c | None => fst r end in
-  do st <- apply_cli st (i_cli i);
+  let (cfg, cfg_warned) := drop_unknown (match i_cfg i with Some c => c | None => [] end) in
+  do r <- load_settings (i_lines i) (i_toml i) cfg;
+  do st <- apply_cli (fst r) (i_cli i);
   do st <- normalise_paths (project_dir i) (i_ford i) st;
   do st <- finish_arguments st;
-  Ok (st, snd r).
+  Ok (st, cfg_warned ++ snd r).
 
 (* ------------------------------------------------------------------ abstract typed values and
    their three encodings *)
@@ -835,14 +857,3 @@ Definition effective_toml (i : input) (kvs : list (str * aval)) : res (settings 
   effective (mkinput [] (Some (enc_toml_all kvs)) None (i_cli i) (i_cwd i) (i_dir i) (i_ford i)).
 Definition effective_config (i : input) (kvs : list (str * aval)) : res (settings * list str) :=
   effective (mkinput [] None (Some (enc_toml_all kvs)) (i_cli i) (i_cwd i) (i_dir i) (i_ford i)).
-
-(* options whose --config value is not treated like the file value, because --config values are
-   attached after __post_init__ ran on the file values (and a bare scalar for a list option is not
-   wrapped into a list): the region of the recorded finding *)
-Definition config_sensitive : list str :=
-  [s "project_url"; s "relative"; s "display"; s "extensions"; s "fpp_extensions"; s "fixed_extensions";
-   s "exclude_dir"; s "output_dir"; s "extra_mods"; s "external"; s "extra_filetypes";
-   s "docmark"; s "predocmark"; s "docmark_alt"; s "predocmark_alt"].
-Definition is_one (v : aval) : bool := match v with VOne _ => true | _ => false end.
-Definition config_safe (kvs : list (str * aval)) : bool :=
-  forallb (fun kv => negb (sin (fst kv) config_sensitive) && negb (is_one (snd kv))) kvs.
